@@ -94,15 +94,14 @@ structure Marker (F : Type) where
 deriving Repr
 
 /-- the values one argument of the `Sprintf` contributes to the signed message, by the verb it is printed with. -/
-def argVals {F : Type} (m : Marker F) : MField × String → Option (List Int)
+def argVals {F : Type} (m : Marker F) : MField × Verb → Option (List Int)
   | (.Recipient, _) => some [(m.recipient : Int)]
   | (.Assigner, _) => some [(m.assigner : Int)]
   | (.Nonce, _) => some [m.nonce]
   | (.Blobbers, _) => some (m.blobbers.map (fun b => Int.ofNat b))
-  | (.FreeTokens, verb) =>
-    if verb = "%f" then (fmt6 m.amount.toF64).map (fun x => [x])
-    else if verb = "%v" then some [(F64.toBits m.amount.toF64 : Int)]
-    else none
+  | (.FreeTokens, .f) => (fmt6 m.amount.toF64).map (fun x => [x])
+  | (.FreeTokens, .v) => some [(F64.toBits m.amount.toF64 : Int)]
+  | (.FreeTokens, _) => none
   | (.Signature, _) => none
 
 /-- the marker string `verifyFreeAllocationRequestNew` builds, as the list of its components. -/
